@@ -337,3 +337,19 @@ M('C14', 'c14-id-matcher-gen-none-minus', [(MAT, "        generation = obj.gener
 M('C14', 'c14-split-cut-mismatch', [(MAT, "            _parse_int_matcher(text[:i]),\n            '',\n            _parse_generation_matcher(text[i:]),", "            _parse_int_matcher(text[:i]),\n            '',\n            _parse_generation_matcher(text[i + 1:]),")], 'C14.1')
 M('C14', 'c14-caps-base-wrong', [(LIG, "    base = ord('A') if caps else ord('a')", "    base = ord('@') if caps else ord('a')")], 'C14.1')
 V('C14', 'c14v-is-letter-isalpha-range', [(MAT, "        (val >= ord('a') and val <= ord('z')) or\n        (val >= ord('A') and val <= ord('Z'))", "        (ord('a') <= val <= ord('z')) or\n        (ord('A') <= val <= ord('Z'))")])
+
+# ---- C17 -----------------------------------------------------------------------------------------
+UTL = 'core/util.py'
+M('C17', 'c17-code-with-letter', [(UTL, "good_color = '1;92'", "good_color = '1;92;x'")], 'C17.3')
+M('C17', 'c17-len-of-coloured', [(CTL, "' ' * len(no_color(start))", "' ' * len(start)")], 'C17.4')
+M('C17', 'c17-switch-read-elsewhere', [(OUT, "    def warn(self, *msg) -> None:\n        self.err.write(color(alert_color, 'Warning: ')", "    def warn(self, *msg) -> None:\n        import core.util\n        if core.util.color_output:\n            self.err.write('!')\n        self.err.write(color(alert_color, 'Warning: ')")], 'C17.1')
+M('C17', 'c17-raw-escape', [(MSG, "color(symbol_color, ' ↲')", "'\\x1b[2m ↲\\x1b[0m'")], 'C17.1')
+M('C17', 'c17-reset-when-off', [(UTL, "        if color_output and color:\n            result += '\\x1b[0m'", "        if color:\n            result += '\\x1b[0m'")], 'C17.2')
+M('C17', 'c17-text-dropped-for-none', [(UTL, "        else:\n            result += '\\x1b[0m'\n    if string:", "        else:\n            return '\\x1b[0m'\n    if string:")], 'C17.2')
+M('C17', 'c17-no-color-narrow', [(UTL, "re.sub(r'\\x1b\\[[\\d;]*m', '', string)", "re.sub(r'\\x1b\\[\\d+m', '', string)")], 'C17.3')
+M('C17', 'c17-tokenise-before-strip-again', [(CTL, "        input_line = no_color(input_line).strip()", "        input_line = input_line.strip()")], 'C17.5')
+M('C17', 'c17-matcher-parse-no-strip', [(MAT, "    text = no_color(text).strip()\n    if text == '':", "    text = text.strip()\n    if text == '':")], 'C17.5')
+M('C17', 'c17-bold-marker-literal', [(CI, "        txt += color('1;37', self._name) + ' ('", "        txt += color('1;37m', self._name) + ' ('")], 'C17.3')
+M('C17', 'c17-ljust-coloured', [(CTL, "            line += str(connection) + ': '\n            line = color(clr, line)", "            line += str(connection) + ': '\n            line = color(clr, line).ljust(40)")], 'C17.4')
+M('C17', 'c17-help-text-width-coloured', [(MAT, "        result += color(object_type_color, match[0])\n        result += ' ' * (32 - len(match[0]))", "        cell = color(object_type_color, match[0])\n        result += cell\n        result += ' ' * (32 - len(cell))")], 'C17.4')
+V('C17', 'c17v-code-const-alias', [(CTL, "help_command_color = alert_color", "help_command_color = '93'")])
